@@ -10,7 +10,8 @@ import (
 func algorithmCipher(a ipmi.ConfidentialityAlgorithm, g AdditionalKeyMaterialGenerator) (layerexts.SerializableDecodingLayer, error) {
 	switch a {
 	case ipmi.ConfidentialityAlgorithmNone:
-		return nil, nil
+		// a nil layer cannot be registered for decoding, or used to encrypt
+		return nil, fmt.Errorf("confidentiality algorithm %v is not supported", a)
 	case ipmi.ConfidentialityAlgorithmAESCBC128:
 		key := [16]byte{}
 		copy(key[:], g.K(2))
